@@ -63,6 +63,7 @@ type Options struct {
 	// deviations of the document itself (hostile personalisations)
 	StripFromChip   []int // data groups listed in the SOD but not stored on the chip
 	CardAccessExtra [][]byte // SecurityInfos present in EF.CardAccess but NOT in DG14 (downgrade)
+	CardAccessExtraFirst bool // the foreign infos are written in front of the genuine ones
 	NoDG14PaceInfos bool
 	// CloneOwnKeys: the chip is a clone that generated its OWN chip-authentication / active-authentication
 	// key pairs: it stores DG14 / DG15 with those keys (so they differ from what the issuer signed)
@@ -278,7 +279,11 @@ func New(o Options) (*Passport, error) {
 		}
 	}
 	if len(paceInfos) > 0 || len(o.CardAccessExtra) > 0 {
-		p.MfFiles[chipsim.FidCardAccess] = chipsim.BuildCardAccess(paceInfos, o.CardAccessExtra...)
+		if o.CardAccessExtraFirst {
+			p.MfFiles[chipsim.FidCardAccess] = chipsim.BuildCardAccessExtraFirst(paceInfos, o.CardAccessExtra...)
+		} else {
+			p.MfFiles[chipsim.FidCardAccess] = chipsim.BuildCardAccess(paceInfos, o.CardAccessExtra...)
+		}
 	}
 	needDG14 := len(caSpecs) > 0 || len(paceInfos) > 0 || (o.AA != nil && o.AA.Type == "ecdsa")
 	if needDG14 {
